@@ -78,8 +78,8 @@ theorem c16_listKeys_extendList (f : Flags) (k : CompKind) :
     have := snoc cs 0 (adopt f k v) h
     simpa using this
 
-theorem c16_native_newPlainList (vs : List Node) :
-    native (newPlainList vs) = .list (vs.map native) := by
-  simp [newPlainList, native, CompKind.isDictFam, c16_nativeVals_renum, native_inheritInto]
+theorem c16_native_newPlainList (f : Flags) (vs : List Node) :
+    native (newPlainList f vs) = .list (vs.map native) := by
+  simp [newPlainList, nativeOf_propagate, native, CompKind.isDictFam, c16_nativeVals_renum, native_inheritInto]
 
 end AY
